@@ -47,12 +47,12 @@ template <typename T> static Bytes Ser(const T& t)
 static Bytes SerBlock(const CBlock& b) { return Ser(TX_WITH_WITNESS(b)); }
 static Bytes ReadFile(const fs::path& p)
 {
-    std::ifstream f(p, std::ios::binary);
+    std::ifstream f(fs::PathToString(p), std::ios::binary);
     return Bytes((std::istreambuf_iterator<char>(f)), std::istreambuf_iterator<char>());
 }
 static void WriteFile(const fs::path& p, const Bytes& b)
 {
-    std::ofstream f(p, std::ios::binary | std::ios::trunc);
+    std::ofstream f(fs::PathToString(p), std::ios::binary | std::ios::trunc);
     f.write((const char*)b.data(), b.size());
 }
 // independent de-obfuscation: plain[i] = disk[i] ^ key[i mod 8], i = offset in the file
@@ -110,7 +110,7 @@ struct PartA {
     {
         if (use_xor) key = Bytes{0x5a, 0x01, 0xff, 0x80, 0x33, 0xc4, 0x07, 0xe9};
         const CBlock& g = Params().GenesisBlock();
-        spine.push_back(g.GetBlockHeader());
+        spine.push_back(static_cast<const CBlockHeader&>(g));
         for (int h = 1; h <= max_height; h++) {
             CBlockHeader hd;
             hd.nVersion = 0x20000000;
@@ -252,7 +252,7 @@ struct PartA {
                 FlatFilePos pos = bm.WriteBlock(b->block, h);
                 if (pos.IsNull()) { fail("writeblock-null", "WriteBlock returned a null position at step " + std::to_string(step)); return true; }
                 CBlockIndex* best2 = best;
-                CBlockIndex* idx = bm.AddToBlockIndex(b->block.GetBlockHeader(), best2);
+                CBlockIndex* idx = bm.AddToBlockIndex(static_cast<const CBlockHeader&>(b->block), best2);
                 // what ReceivedBlockTransactions records
                 idx->nFile = pos.nFile;
                 idx->nDataPos = pos.nPos;
@@ -300,7 +300,7 @@ struct PartA {
         std::map<int, Bytes> blk_disk, rev_disk;
         auto disk = [&](std::map<int, Bytes>& m, const char* prefix, int f) -> const Bytes& {
             auto it = m.find(f);
-            if (it == m.end()) it = m.emplace(f, ReadFile(root / strprintf("%s%05u.dat", prefix, f))).first;
+            if (it == m.end()) it = m.emplace(f, ReadFile(root / fs::u8path(strprintf("%s%05u.dat", prefix, f)))).first;
             return it->second;
         };
         uint64_t reads = 0;
@@ -390,7 +390,7 @@ struct PartA {
                 if (disk(blk_disk, "blk", f).size() < fi->nSize) fail("file-shorter-than-info", strprintf("blk file %d is shorter than nSize", f));
                 if (fi->nUndoSize && disk(rev_disk, "rev", f).size() < fi->nUndoSize) fail("revfile-shorter-than-info", strprintf("rev file %d is shorter than nUndoSize", f));
             } else {
-                if (fs::exists(root / strprintf("blk%05u.dat", f)) || fs::exists(root / strprintf("rev%05u.dat", f))) fail("pruned-file-exists", strprintf("file %d still exists after pruning", f));
+                if (fs::exists(root / fs::u8path(strprintf("blk%05u.dat", f))) || fs::exists(root / fs::u8path(strprintf("rev%05u.dat", f)))) fail("pruned-file-exists", strprintf("file %d still exists after pruning", f));
             }
             usage += fi->nSize + fi->nUndoSize;
             layout += strprintf("%d:%u/%u/%u;", f, cnt, fi->nSize, fi->nUndoSize);
@@ -421,7 +421,7 @@ static bool RunPartA(ck::Node& node, const fs::path& scratch, bool use_xor, int 
     pool.run(
         nprefix + 1,
         [&](uint64_t job, fp::Out& out) {
-            PartA a(node, scratch / strprintf("a%d", (int)getpid()), use_xor);
+            PartA a(node, scratch / fs::u8path(strprintf("a%d", (int)getpid())), use_xor);
             std::function<void(std::vector<int>&)> dfs = [&](std::vector<int>& h) {
                 if (!a.Execute(h, out, true)) return; // some op not enabled: not a history of the space
                 if ((int)h.size() >= depth) return;
@@ -503,7 +503,7 @@ struct PartB {
 
     PartB(ck::Node& node, bool x) : n(node), use_xor(x) {}
 
-    fs::path File(bool undo, int f) { return n.BlocksDir() / strprintf("%s%05u.dat", undo ? "rev" : "blk", f); }
+    fs::path File(bool undo, int f) { return n.BlocksDir() / fs::u8path(strprintf("%s%05u.dat", undo ? "rev" : "blk", f)); }
 
     void Setup()
     {
@@ -650,14 +650,14 @@ struct PartB {
     void ConnectJob(const Fault& f, fp::Out& out, const fs::path& scratch)
     {
         const Rec& r = recs[f.rec];
-        fs::path priv = scratch / strprintf("c%d", (int)getpid());
+        fs::path priv = scratch / fs::u8path(strprintf("c%d", (int)getpid()));
         n.RepointBlocksDir(priv);
         if (!n.Invalidate(x1) || n.tip()->GetBlockHash() != L.blocks.at(x1).prev) {
             out.violation("B-harness-invalidate", "could not disconnect X1/X2 with intact files", FaultStr(recs, f));
             fs::remove_all(priv);
             return;
         }
-        WriteFile(priv / strprintf("blk%05u.dat", r.file), Mutate(blk_pristine[r.file], r, f));
+        WriteFile(priv / fs::u8path(strprintf("blk%05u.dat", r.file)), Mutate(blk_pristine[r.file], r, f));
         n.Reconsider(x1);
         bool active;
         int h;
